@@ -62,7 +62,7 @@ impl std::future::Future for GateFut {
         }
     }
 }
-impl Drop for GateFut { fn drop(&mut self) { if !self.done { if OCC[self.obj].load(SeqCst) > 0 { OCC[self.obj].fetch_sub(1, SeqCst); } CANCELLED[self.op].store(true, SeqCst); END[self.op].store(now(), SeqCst); } } }
+impl Drop for GateFut { fn drop(&mut self) { vsched::harness_event("__gatefut_drop", |_| true); if !self.done { if OCC[self.obj].load(SeqCst) > 0 { OCC[self.obj].fetch_sub(1, SeqCst); } CANCELLED[self.op].store(true, SeqCst); END[self.op].store(now(), SeqCst); } } }
 static NDROP: [AtomicUsize; N] = [const { AtomicUsize::new(0) }; N];
 static ALIVE: [AtomicBool; N] = [const { AtomicBool::new(true) }; N];
 static UAF: AtomicUsize = AtomicUsize::new(0);
@@ -81,6 +81,9 @@ fn task_wait(k: usize) { vsched::harness_event("__task_wait", |_| WOKEN[k].load(
 static GATE_AT: [AtomicUsize; N] = [const { AtomicUsize::new(usize::MAX) }; N];
 static GATE_WOKE: [AtomicBool; N] = [const { AtomicBool::new(false) }; N];
 fn open_gate_wake(k: usize) { vsched::harness_event("__gate_open", |_| true); GATE[k].store(true, SeqCst); GATE_AT[k].store(now(), SeqCst); let w = GATE_WAKER[k].lock().unwrap().take(); if let Some(w) = w { GATE_WOKE[k].store(true, SeqCst); w.wake(); } }
+static SGOT: [AtomicUsize; N] = [const { AtomicUsize::new(usize::MAX) }; N];
+static SVAL: [AtomicUsize; N] = [const { AtomicUsize::new(usize::MAX) }; N];
+static SDROPPED: [AtomicUsize; N] = [const { AtomicUsize::new(usize::MAX) }; N];
 static FLAGDROP: [AtomicUsize; N] = [const { AtomicUsize::new(0) }; N];
 static STREAM_ENDED: [AtomicBool; N] = [const { AtomicBool::new(false) }; N];
 static PIPE_STARTED: [AtomicUsize; N] = [const { AtomicUsize::new(usize::MAX) }; N];
@@ -110,7 +113,7 @@ fn op_done(op: usize, v: usize) { RES[op].store(v, SeqCst); RET[op].store(now(),
     callers = [t['name'] for t in sc['threads'] if not t.get('final')]
     opid = 0
     handles = []
-    tasks = {}; canaries = {}; gives = []; npipes = [0]
+    tasks = {}; canaries = {}; gives = []; npipes = [0]; psvars = {}
     nslots = max([o[2] for th_ in sc['threads'] for o in th_['ops'] if o[0] == 'd_give'] + [-1]) + 1
     for k_ in range(nslots): L.insert(1, 'static SLOT_%d: std::sync::Mutex<Option<desync::Desync<Canary>>> = std::sync::Mutex::new(None);' % k_)
     for th in sc['threads']:
@@ -194,6 +197,27 @@ fn op_done(op: usize, v: usize) { RES[op].store(v, SeqCst); RET[op].store(now(),
                             'desync::pipe_in(Arc::clone(dv_%s.as_ref().unwrap()), st, move |c: &mut Canary, item: usize| { let _ = &fl; let op = %d + item; enter(%d, op); touch(c, %d); DGateFut { inner: GateFut { gate: %d, op: op, obj: %d, tok: 40 + op, done: false }, cid: %d }.map(|_| ()).boxed() }); PIPE_STARTED[%d].store(now(), SeqCst); }'
                             % (n, 'true' if ends else 'false', pid, 2 * pid, ', '.join(map(str, gates)), 2 * pid + 1, op[1], base, obj, cid, pgate, obj, cid, pid))
                 opid += n
+            elif kind == 'pipe':
+                cid = canaries[op[1]]; obj = 10 + cid; b = op[2] if len(op) > 2 else {}
+                gates = [9999 if g == 99 else g for g in b.get('gates', [99])]; n = len(gates); ends = bool(b.get('ends', True))
+                pk = b.get('proc', 'ready'); pgate = pk[1] if isinstance(pk, (list, tuple)) else 9999
+                pid = npipes[0]; npipes[0] += 1; base = opid; psn = b.get('as', 'ps'); psvars[psn] = pid
+                body.append('let mut ps_%s = { use futures::FutureExt; let st = GateStream { n: %d, ends: %s, idx: 0, pipe: %d, flag: DropFlag(%d), gates: vec![%s] }; let fl = DropFlag(%d); '
+                            'Some(desync::pipe(Arc::clone(dv_%s.as_ref().unwrap()), st, move |c: &mut Canary, item: usize| { let _ = &fl; let op = %d + item; enter(%d, op); touch(c, %d); DGateFut { inner: GateFut { gate: %d, op: op, obj: %d, tok: 40 + op, done: false }, cid: %d }.boxed() })) };'
+                            % (psn, n, 'true' if ends else 'false', pid, 2 * pid, ', '.join(map(str, gates)), 2 * pid + 1, op[1], base, obj, cid, pgate, obj, cid))
+                if b.get('depth'): body.append('ps_%s.as_mut().unwrap().set_backpressure_depth(%d);' % (psn, b['depth']))
+                body.append('PIPE_STARTED[%d].store(now(), SeqCst);' % pid)
+                opid += n
+            elif kind == 's_next':
+                k = ntask[0]; ntask[0] += 1
+                tk = '%s_%d' % (th['name'], k)
+                tid = tasks.setdefault(tk, len(tasks))
+                body.append('{ let waker = futures::task::waker(Arc::new(TaskWake(%d))); let mut cx = std::task::Context::from_waker(&waker); '
+                            'loop { match futures::Stream::poll_next(std::pin::Pin::new(ps_%s.as_mut().unwrap()), &mut cx) { std::task::Poll::Ready(v) => { SGOT[%d].store(if v.is_some() { 1 } else { 0 }, SeqCst); SVAL[%d].store(v.unwrap_or(usize::MAX), SeqCst); RET[%d].store(now(), SeqCst); break; } std::task::Poll::Pending => { task_wait(%d); } } } }'
+                            % (tid, op[1], opid, opid, opid, tid))
+                opid += 1
+            elif kind == 's_drop':
+                body.append('drop(ps_%s.take()); SDROPPED[%d].store(now(), SeqCst);' % (op[1], psvars[op[1]]))
             elif kind == 'd_new':
                 cid = canaries.setdefault(op[1], len(canaries))
                 body.append('let mut dv_%s = Some(desync::Desync::new(Canary { id: %d }));' % (op[1], cid))
@@ -235,6 +259,8 @@ fn op_done(op: usize, v: usize) { RES[op].store(v, SeqCst); RET[op].store(now(),
     A('    for i in 0..%d { println!("CANARY {} ndrop={} dropbegin={} dropend={} freedat={}", i, NDROP[i].load(SeqCst), DROPBEGIN[i].load(SeqCst) as isize, DROPEND[i].load(SeqCst) as isize, FREEDAT[i].load(SeqCst) as isize); }' % max(1, len(canaries)))
     A('    for i in 0..%d { println!("OP {} nrun={} inv={} ret={} start={} end={} res={} fret={} fres={} nready={} fdropped={} resumed={} cancelled={}", i, NRUN[i].load(SeqCst), INV[i].load(SeqCst) as isize, RET[i].load(SeqCst) as isize, START[i].load(SeqCst) as isize, END[i].load(SeqCst) as isize, RES[i].load(SeqCst) as isize, FRET[i].load(SeqCst) as isize, FRES[i].load(SeqCst) as isize, NREADY[i].load(SeqCst), FDROPPED[i].load(SeqCst) as isize, RESUMED[i].load(SeqCst) as isize, CANCELLED[i].load(SeqCst)); }' % opid)
     A('    for i in 0..8 { println!("FLAG {} ndrop={}", i, FLAGDROP[i].load(SeqCst)); }')
+    A('    for i in 0..%d { println!("SNEXT {} got={} val={}", i, SGOT[i].load(SeqCst) as isize, SVAL[i].load(SeqCst) as isize); }' % opid)
+    A('    for i in 0..4 { println!("SDROP {} at={}", i, SDROPPED[i].load(SeqCst) as isize); }')
     A('    for i in 0..8 { println!("GATE {} open={} at={} woke={}", i, GATE[i].load(SeqCst), GATE_AT[i].load(SeqCst) as isize, GATE_WOKE[i].load(SeqCst)); }')
     A('    for i in 0..4 { println!("PIPE {} ended={} started={}", i, STREAM_ENDED[i].load(SeqCst), PIPE_STARTED[i].load(SeqCst) as isize); }')
     for q in range(nq): A('    println!("QUEUE %d {}", std::panic::catch_unwind(std::panic::AssertUnwindSafe(|| format!("{:?}", q%d))).unwrap_or("POISONED".to_string()));' % (q, q))
@@ -284,6 +310,10 @@ def parse_output(out, wall):
         elif line.startswith('CANARY '):
             m = re.match(r'CANARY (\d+) ndrop=(\d+) dropbegin=(-?\d+) dropend=(-?\d+) freedat=(-?\d+)', line)
             r.setdefault('canaries', {})[int(m.group(1))] = dict(ndrop=int(m.group(2)), dropbegin=int(m.group(3)), dropend=int(m.group(4)), freedat=int(m.group(5)))
+        elif line.startswith('SNEXT '):
+            m = re.match(r'SNEXT (\d+) got=(-?\d+) val=(-?\d+)', line); r.setdefault('snext', {})[int(m.group(1))] = dict(got=int(m.group(2)), val=int(m.group(3)))
+        elif line.startswith('SDROP '):
+            m = re.match(r'SDROP (\d+) at=(-?\d+)', line); r.setdefault('sdrop', {})[int(m.group(1))] = int(m.group(2))
         elif line.startswith('FLAG '):
             m = re.match(r'FLAG (\d+) ndrop=(\d+)', line); r.setdefault('flags', {})[int(m.group(1))] = int(m.group(2))
         elif line.startswith('GATE '):
@@ -332,6 +362,33 @@ def judge(spec, viol, rr):
                 if q in sick:
                     if 'POISONED' not in s and 'State: Panicked' not in s: bad.append('panicked queue%d is %s' % (q, s))
                 elif 'State: Idle, Pending: 0' not in s: bad.append('healthy queue%d %s' % (q, s))
+        return ('reproduced', '; '.join(bad)) if bad else ('not_reproduced', '')
+    if oracle in ('pipe_out', 'pipe_closed'):
+        bad = []
+        cids = {}
+        for th in sc['threads']:
+            for op in th['ops']:
+                if op[0] in ('d_new', 'p_new'): cids.setdefault(op[1], len(cids))
+        pipes = {}
+        for k, o in ops.items():
+            if o['kind'] == 'pipe_item' and o.get('out'): pipes.setdefault(o['pipe_base'], []).append(k)
+        for pid, (base, ks) in enumerate(sorted(pipes.items())):
+            o0 = ops[base]; n = o0['n']
+            cons = [k for k, o in sorted(ops.items()) if o['kind'] == 's_next' and o['ps'] == o0['out']]
+            if oracle == 'pipe_out':
+                for j, k in enumerate(cons):
+                    if rr['ops'][k]['ret'] < 0: continue
+                    sn = rr.get('snext', {}).get(k, {})
+                    if j < n:
+                        if sn.get('got') != 1: bad.append('output %d missing (stream ended early)' % j)
+                        elif sn.get('val') != 40 + base + j: bad.append('output %d has value %s, expected %d' % (j, sn.get('val'), 40 + base + j))
+                    elif sn.get('got') != 0: bad.append('output %d beyond the %d inputs' % (j, n))
+            else:
+                can = rr.get('canaries', {}).get(cids[o0['var']], {})
+                if not unfinished and rr.get('sdrop', {}).get(pid, -1) >= 0 and can.get('dropend', -1) >= 0:
+                    if can.get('ndrop') != 1: bad.append('pipe still holds the Desync after its output stream was dropped (payload drops=%s)' % can.get('ndrop'))
+                    for f_ in (2 * pid, 2 * pid + 1):
+                        if rr.get('flags', {}).get(f_) != 1: bad.append('%s not released after the output stream was dropped (drops=%s)' % ('input stream' if f_ % 2 == 0 else 'closure', rr.get('flags', {}).get(f_)))
         return ('reproduced', '; '.join(bad)) if bad else ('not_reproduced', '')
     if oracle == 'pipe_in':
         bad = []
@@ -464,11 +521,14 @@ def opinfo(sc):
     for th in sc['threads']:
         for op in th['ops']:
             if op[0] in ('d_new', 'p_new'): dcan.setdefault(op[1], len(dcan))
-            if op[0] == 'pipe_in':
+            if op[0] == 's_next':
+                ops[k] = {'kind': 's_next', 'obj': -1, 'thread': th['name'], 'probe': False, 'idx': th['ops'].index(op), 'gated': False, 'ps': op[1]}
+                k += 1; continue
+            if op[0] in ('pipe_in', 'pipe'):
                 b = op[2] if len(op) > 2 else {}
                 gates = list(b.get('gates', [99])); cid = dcan.setdefault(op[1], len(dcan))
                 for j, g_ in enumerate(gates):
-                    ops[k] = {'kind': 'pipe_item', 'obj': 10 + cid, 'thread': th['name'], 'probe': False, 'idx': th['ops'].index(op), 'gated': False, 'item': j, 'gate': g_, 'pipe_base': k - j, 'n': len(gates), 'ends': bool(b.get('ends', True)), 'gates': gates, 'var': op[1]}
+                    ops[k] = {'kind': 'pipe_item', 'obj': 10 + cid, 'thread': th['name'], 'probe': False, 'idx': th['ops'].index(op), 'gated': False, 'item': j, 'gate': g_, 'pipe_base': k - j, 'n': len(gates), 'ends': bool(b.get('ends', True)), 'gates': gates, 'var': op[1], 'out': b.get('as', 'ps') if op[0] == 'pipe' else None}
                     k += 1
                 continue
             if op[0] in ('sync', 'desync', 'try_sync', 'future_desync', 'future_sync', 'suspend', 'd_desync', 'd_sync', 'd_try_sync', 'd_future_desync'):
